@@ -583,11 +583,11 @@ Print Assumptions C18_escape_only_positionals_refuted.
     of single-valued positionals and (round 5) the terminator of the positional at the counter, alone ([p18_term]) or behind
     [k] values of that multi-valued positional ([p18_multi_term], [k] below the engine's [eng_num_args]); [pos]/[pos'] the
     positional counter before and after.
-    [body18 pc pre F pst pos est]: [pre] are the arguments of one level - options and values of single-valued
+    [body18 pc pre F pst pos est epos]: [pre] are the arguments of one level - options and values of single-valued
     positionals ([pitems18], the counter starts at 1), optionally followed by [k] values of a multi-valued
     positional [a] ([ChainWide.multi_vals], [k] below the engine's [eng_num_args a]); [F] is the parser's state
-    transformer, [pst]/[pos] the parser's loop state and positional counter behind them, [est] the engine's state:
-    [ValueDone] resp. [Pos pos k].  [pline pc line pcf posf vf]: `body_0 n_1 body_1 ... n_k pre_k`, every [n_i] a
+    transformer, [pst]/[pos] the parser's loop state and positional counter behind them, [est]/[epos] the engine's state and
+    [pos_index]: [ValueDone] resp. [Pos pos k] at [pos], or [ValueDone] at [pos + 1] behind the last value a bounded positional admits.  [pline pc line pcf posf vf]: `body_0 n_1 body_1 ... n_k pre_k`, every [n_i] a
     subcommand name/alias read where the parser looks for one ([may_select]: between arguments, or behind the values
     of a multi-valued positional if THE LEVEL REACHED sets [subcommand_precedence_over_arg]); a level with
     [args_conflicts_with_subcommands] is left only before any of its own arguments (behind one, a subcommand NAME is a
@@ -687,22 +687,40 @@ Theorem C18_pending_option_dash_agreement : forall pc cur tok a, elevel pc cur -
 Proof. exact pending_option_dash_agreement. Qed.
 Print Assumptions C18_pending_option_dash_agreement.
 
+(** KNOWN FINDING C18-low-index-multiples (found in round 5, not repaired): the engine has no counterpart of the parser's
+    "low index multiples" correction of the positional counter.  `p(--pf; <files>.. required; <dst> required) -> sub(--so)`: the
+    parser accepts `p a b sub` (files = [a], dst = b, dispatch to `sub`: at the second-to-last counter it peeks at the next word);
+    the engine keeps filling `files` ([Pos 1 3] at `p`), offers `--pf` of `p`, and `p a b sub --pf` is UnknownArgument.  The
+    class [ChainWide.pos_plain] (no low-index multiples) of the state-agreement theorems is necessary.  Same on the real crate *)
+Theorem C18_low_index_multiples_refuted :
+  LowIndex.chain_of (parse_top LowIndex.c0 ([112] :: LowIndex.line)) = Some [LowIndex.w_sub] /\
+  LowIndex.stands LowIndex.c0 ([112] :: LowIndex.line ++ [[45; 45]]) 4 = Some ([112], 1, 3) /\
+  LowIndex.has_cand (LowIndex.ddw LowIndex.w_pf) (IdArg LowIndex.w_pf)
+    (complete_model [] LowIndex.c0 ([112] :: LowIndex.line ++ [[45; 45]]) 4) = true /\
+  LowIndex.kind_of (parse_top LowIndex.c0 ([112] :: LowIndex.line ++ [LowIndex.ddw LowIndex.w_pf])) = Some EUnknownArgument.
+Proof. exact low_index_multiples_refuted. Qed.
+Print Assumptions C18_low_index_multiples_refuted.
+
 (** the engine's positional lookup IS the parser's key-map lookup *)
 Theorem C18_find_pos_is_get_pos : forall c n, assert_app c = true -> find_pos c n = get_pos c n.
 Proof. exact find_pos_get_pos. Qed.
 Print Assumptions C18_find_pos_is_get_pos.
 
 (** STATE AND POS_INDEX AGREEMENT on one level: behind the arguments of a level the engine stands in [est] at
-    [pos_index = pos] where the parser's token loop stands in [pst] at the positional counter [pos];
-    [ValueDone]/[PSValuesDone], or [Pos pos k]/[PSPos (a_id a)] for the same positional [a] *)
-Theorem C18_state_agreement_positionals : forall pc cur pre F pst pos est, elevel pc cur -> body18 pc pre F pst pos est ->
-  shadow_run pre cur 1 false ValueDone false = SNext cur pos false est (negb (is_nil pre)) /\
+    [pos_index = epos] where the parser's token loop stands in [pst] at the positional counter [pos];
+    [ValueDone]/[PSValuesDone] at the same index, or [Pos pos k]/[PSPos (a_id a)] for the same positional [a], or (round 5:
+    [b18_multi_max], a BOUNDED multi-valued positional with ALL the values the engine's [num_args] admits) [ValueDone] at
+    [pos + 1] where the parser is still in [PSPos (a_id a)] at [pos] *)
+Theorem C18_state_agreement_positionals : forall pc cur pre F pst pos est epos, elevel pc cur -> body18 pc pre F pst pos est epos ->
+  shadow_run pre cur 1 false ValueDone false = SNext cur epos false est (negb (is_nil pre)) /\
   (forall rest st, fs_skip st = 0 ->
      parse_loop pc (pre ++ rest) (Chain.lsV 1 false) st =
      (do st' <- F st; parse_loop pc rest (mkL pst pos (negb (is_nil pre)) false) st')) /\
   match est with
-  | ValueDone => pst = PSValuesDone
-  | Pos i k => i = pos /\ exists a, pst = PSPos (a_id a) /\ find_pos cur pos = Some a /\ get_pos pc pos = Some a /\
+  | ValueDone => (pst = PSValuesDone /\ epos = pos) \/
+                 (epos = pos + 1 /\ exists a, pst = PSPos (a_id a) /\ find_pos cur pos = Some a /\ get_pos pc pos = Some a /\
+                    a_is_multiple a = true)
+  | Pos i k => i = pos /\ epos = pos /\ exists a, pst = PSPos (a_id a) /\ find_pos cur pos = Some a /\ get_pos pc pos = Some a /\
                  a_is_multiple a = true /\ k < eng_num_args a
   | Opt _ _ => False
   end.
